@@ -118,6 +118,40 @@ Inductive reader :=
 
 Inductive body_mode := BMNoBody | BMLength (n : N) | BMChunked | BMClose.
 
+(** What the decoder is left as when a call FAILS.  The Rust [Dechunker] is mutated in place, so after an error the
+    object keeps the state it had reached at the transition that failed ([read_size] fails in [Size], [expect_crlf] in
+    [CrLf]); everything the failed call had consumed or produced before is lost to the caller (the error carries no
+    counts).  These functions follow the same loops and return that state (for a call that succeeds they return the
+    state it ends in). *)
+Fixpoint parse_input_err_state (fuel : nat) (d : dechunker) (src : bytes) (room : N) : dechunker :=
+  match fuel with
+  | O => d
+  | S f =>
+      match dech_step d src room with
+      | Ok r =>
+          if sr_more r
+          then parse_input_err_state f (sr_st r) (drop (sr_in r) src) (room - len (sr_out r))
+          else sr_st r
+      | _ => d
+      end
+  end.
+
+Fixpoint read_chunked_err_state (fuel : nat) (d : dechunker) (src : bytes) (room : N) (stop : bool) : dechunker :=
+  match fuel with
+  | O => d
+  | S f =>
+      match parse_input d src room with
+      | Ok (d', i, o) =>
+          let src' := drop i src in
+          let room' := room - len o in
+          if (i =? 0) || (len src' =? 0) || (room' =? 0) then d'
+          else if dech_is_ended d' then d'
+          else if stop && is_on_chunk_boundary d' then d'
+          else read_chunked_err_state f d' src' room' stop
+      | _ => parse_input_err_state (2 * length src + 3) d src room
+      end
+  end.
+
 Definition reader_mode (r : reader) : body_mode :=
   match r with
   | RNoBody => BMNoBody
@@ -187,6 +221,13 @@ Definition for_response (http10 : bool) (is_head_m is_connect_m : bool) (status 
       is_head_m || (is_success && is_connect_m) || is_informational
       || (status =? 204) || (status =? 304) || (is_redirect && negb has_body_header) in
   if has_no_body then Ok RNoBody else Ok hd.
+
+(** The reader after a [read] that returned an error (only the chunked reader can fail). *)
+Definition reader_after_err (r : reader) (src : bytes) (room : N) (stop : bool) : reader :=
+  match r with
+  | RChunked d => RChunked (read_chunked_err_state (length src + 1) d src room stop)
+  | _ => r
+  end.
 
 (** [BodyReader::read]: new reader, input consumed, bytes produced. *)
 Definition reader_read (r : reader) (src : bytes) (room : N) (stop : bool) : res (reader * N * bytes) :=
